@@ -796,6 +796,11 @@ class Mesh:
         if 'subdomains' in data and data['subdomains'] is not None:
             data['subdomains'] = {k: np.array(v)
                                   for k, v in data['subdomains'].items()}
+        orientations = data.pop('orientations', None)
+        if orientations is not None and data.get('boundaries') is not None:
+            for k, ori in orientations.items():
+                data['boundaries'][k] = OrientedBoundary(data['boundaries'][k],
+                                                         ori)
         data['doflocs'] = data.pop('p')
         data['_subdomains'] = data.pop('subdomains')
         data['_boundaries'] = data.pop('boundaries')
@@ -805,8 +810,12 @@ class Mesh:
 
         boundaries = None
         subdomains = None
+        orientations = {}
         if self.boundaries is not None:
             boundaries = {k: v.tolist() for k, v in self.boundaries.items()}
+            orientations = {k: v.ori.tolist()
+                            for k, v in self.boundaries.items()
+                            if isinstance(v, OrientedBoundary)}
         if self.subdomains is not None:
             subdomains = {k: v.tolist() for k, v in self.subdomains.items()}
         return {
@@ -814,6 +823,8 @@ class Mesh:
             't': self.t.T.tolist(),
             'boundaries': boundaries,
             'subdomains': subdomains,
+            # only present if some boundary is oriented
+            **({'orientations': orientations} if orientations else {}),
         }
 
     @classmethod
@@ -1404,7 +1415,8 @@ class Mesh:
             data['doflocs'],
             data['t'],
             _boundaries={
-                key[2:]: data[key]
+                key[2:]: (OrientedBoundary(data[key], data['o_' + key[2:]])
+                          if 'o_' + key[2:] in data.files else data[key])
                 for key in data.files
                 if key[:2] == 'b_'
             },
@@ -1419,6 +1431,9 @@ class Mesh:
 
         boundaries = {} if self.boundaries is None else self.boundaries
         subdomains = {} if self.subdomains is None else self.subdomains
+        orientations = {'o_' + key: value.ori
+                        for key, value in boundaries.items()
+                        if isinstance(value, OrientedBoundary)}
         boundaries = {'b_' + key: value for key, value in boundaries.items()}
         subdomains = {'s_' + key: value for key, value in subdomains.items()}
         np.savez(
@@ -1426,5 +1441,6 @@ class Mesh:
             doflocs=self.doflocs,
             t=self.t,
             **boundaries,
+            **orientations,
             **subdomains,
         )
